@@ -50,3 +50,6 @@ impl<'a> SliceBuf for &'a [u8] {
     #[verifier::external_body]
     fn get_u8(&mut self) -> (r: u8) { unimplemented!() }
 }
+// bool::then_some (documented behaviour)
+pub assume_specification<T>[bool::then_some](b: bool, t: T) -> (r: Option<T>)
+    ensures r == (if b { Some(t) } else { None::<T> });
